@@ -71,7 +71,7 @@ PROPS = {
     },
     "C17": {
         "modules": ["C17"],
-        "streams": [{"name": "feemult", "quick": 300, "thorough": 9000}, {"name": "seal", "quick": 75, "thorough": 2400}],
+        "streams": [{"name": "feemult", "quick": 300, "thorough": 9000}, {"name": "seal", "quick": 75, "thorough": 2400}, {"name": "activation", "quick": 75, "thorough": 2400}],
         "projection": "feemult",
         "oracles": ["feemult"],
     },
